@@ -376,3 +376,23 @@ Proof.
   exists (xb_data p true f0 f1 h), (xb_bfin p true f0 f1 h).
   split; [apply xb_save, Hh|]. split; [apply xb_load, Hh|]. apply (xb_same p true f0 f1 h Hh).
 Qed.
+
+(* ------------------------------------------------------------------ known finding: 512-character mode without a font block *)
+(* signature C05-xb-resave-512-chars-without-font: the loader accepts FLAG_512CHAR_MODE without FLAG_FONT and gives cells
+   font page 1, but the font table only has page 0; the writer cannot find the second font *)
+Definition KnownC05_xb_font2_missing (p : pic) : Prop :=
+  In 1%N (used_pages (p_rows p)) /\ get_font (p_fonts p) 1 = None.
+
+Definition known_xb_file : list N := XBIN_ID ++ [26; 1; 0; 1; 0; 16; 16; 65; 15]%N.
+
+Lemma known_xb_font2_witness :
+  exists b, load_xb known_xb_file None = Ok b /\ KnownC05_xb_font2_missing (pic_of b) /\ save_xb (pic_of b) = Err 1.
+Proof.
+  destruct (load_xb known_xb_file None) as [b| |] eqn:E; [|vm_compute in E; discriminate|vm_compute in E; discriminate].
+  exists b. split; [reflexivity|].
+  assert (H : match load_xb known_xb_file None with
+              | Ok b' => used_pages (p_rows (pic_of b')) = [1%N] /\ get_font (p_fonts (pic_of b')) 1 = None /\ save_xb (pic_of b') = Err 1
+              | _ => False end) by (vm_compute; repeat split).
+  rewrite E in H. destruct H as (H1 & H2 & H3). split; [|exact H3].
+  split; [rewrite H1; left; reflexivity|exact H2].
+Qed.
